@@ -165,6 +165,7 @@ func (m *Machine) reset(prefix []int) {
 	m.hashApps = map[string][]hashApp{}
 	m.clock = 0
 	m.keySeq = 0
+	m.symLogs = nil
 	m.rtypes = nil
 	m.timers = nil
 	m.path = &PathResult{}
